@@ -66,7 +66,7 @@ CHECKS = {
     "C08": (
         "property-based testing (proptest) with an independent screen decoder; metamorphic over delivery paths",
         "exploration",
-        "Generated screen contents are delivered through CPU writes via 0x4000 and 0xC000 (bank 5/7), execute_poke, SCR, SNA, SZX (stored/zlib) and fast tape load, on both machines and both 128K screen banks, over 1..40 idle frames; every delivered canvas must equal the independent standard decode with a flash phase that toggles in runs of exactly 16 frames; single bytes written clearly before/after the beam must appear in the current/next frame. Further paths and stages: poke and fast load through 0xC000, files delivered in short reads, 128K screen-bank flip, a history of real paging-port writes after delivery (lock included), a 48K SNA save with SP inside the display file, and in the beam phase writes into a displayed bank 7 and a rewrite of the latched value after the byte write.",
+        "Generated screen contents are delivered through CPU writes via 0x4000 and 0xC000 (bank 5/7), execute_poke, SCR, SNA, SZX (stored/zlib) and fast tape load, on both machines and both 128K screen banks, over 1..40 idle frames; every delivered canvas must equal the independent standard decode with a flash phase that toggles in runs of exactly 16 frames; single bytes written clearly before/after the beam must appear in the current/next frame. Further paths and stages: poke and fast load through 0xC000, files delivered in short reads, 128K screen-bank flip, a history of real paging-port writes after delivery (lock included), a 48K SNA save with SP inside the display file, and in the beam phase writes into a displayed bank 7 and a rewrite of the latched value after the byte write. Phase failing-load: SNA/SZX/SCR loads that fail part-way (asset dead from a generated call, SZX cut short) must still be displayed as the loader left screen memory.",
         "Trusted: decoder written from the property formula; harness FrameBuffer; the harness' SNA/SZX/TAP writers.",
         "DESIGN.md section 5 (C08)",
         "E3 formats + emulator",
@@ -82,7 +82,7 @@ CHECKS = {
     "C10": (
         "property-based testing (proptest) of TAP images x LD-BYTES request sequences against a ROM-listing model of LD-BYTES",
         "exploration",
-        "The ROM routine at 0x0556 is called from a RAM stub with generated A/carry/IX/DE against generated TAP images (buffer-boundary lengths, wrong checksums, truncated tails), several requests in sequence and past the end of the tape; carry, IX, DE and all RAM (outside system variables and stack) are compared with an LD-BYTES model written from the ROM disassembly; past the end the routine must not succeed and CPU state must stay intact. Preludes: an SZX loaded first, latch locked then an ignored paging write, PLAY+STOP, fast loading switched on / off at run time; a fifth of the cases with a debugger breakpoint on the trap address; a phase where PLAY is pressed while a request waits at the end of the tape.",
+        "The ROM routine at 0x0556 is called from a RAM stub with generated A/carry/IX/DE against generated TAP images (buffer-boundary lengths, wrong checksums, truncated tails), several requests in sequence and past the end of the tape; carry, IX, DE and all RAM (outside system variables and stack) are compared with an LD-BYTES model written from the ROM disassembly; past the end the routine must not succeed and CPU state must stay intact. Preludes: an SZX loaded first, latch locked then an ignored paging write, PLAY+STOP, fast loading switched on / off at run time; a fifth of the cases with a debugger breakpoint on the trap address; a phase where PLAY is pressed while a request waits at the end of the tape; in a third of the sequences the host rewinds the tape before a generated request, which must meet block 0 again.",
         "Trusted: LD-BYTES model (cross-checked against the real ROM running in real time by C11).",
         "DESIGN.md section 5 (C10)",
         "E4 tape models + emulator",
@@ -130,7 +130,7 @@ CHECKS = {
     "C16": (
         "property-based metamorphic testing (proptest): the same scenario under different host drivings and asset implementations must reach identical state hashes",
         "exploration",
-        "Generated interrupt-driven programs with AY/beeper/paging/screen/keyboard/joystick/mouse/tape activity and frame-indexed input scripts are run one frame per call (reference) and again under a partition into FrameCount(n) calls, maximum-speed mode with scripted stopwatch readings, breakpoint stops with resumption, undrained audio, sound switched off, and with the initial file delivered through BufferCursor, FileAsset, GzipAsset or 1..255-byte short reads; hashes of registers, all RAM, paging, frame clock, canvas and border must agree at every common frame count; repeated runs must also agree on audio bit for bit. The tape image and (with short reads) the ROM images travel through the asset kinds too; 128K snapshots have any bank paged (long SNA layout); sound is switched on and off between frames in one driving. An enumerated phase places the fast loader's trap address on the instruction that crosses a frame end (calibrated delay, 32 paddings, both machines, five drivings). Every FrameCount(n) call of a partition must complete exactly n frames under scripted stopwatch readings far beyond or jumping across the time limit. One driving runs the first frames in maximum-speed mode and compares the drained audio of every frame with the reference run's.",
+        "Generated interrupt-driven programs with AY/beeper/paging/screen/keyboard/joystick/mouse/tape activity and frame-indexed input scripts are run one frame per call (reference) and again under a partition into FrameCount(n) calls, maximum-speed mode with scripted stopwatch readings, breakpoint stops with resumption, undrained audio, sound switched off, and with the initial file delivered through BufferCursor, FileAsset, GzipAsset or 1..255-byte short reads; hashes of registers, all RAM, paging, frame clock, canvas and border must agree at every common frame count; repeated runs must also agree on audio bit for bit. The tape image and (with short reads) the ROM images travel through the asset kinds too; 128K snapshots have any bank paged (long SNA layout); sound is switched on and off between frames in one driving. An enumerated phase places the fast loader's trap address on the instruction that crosses a frame end (calibrated delay, 32 paddings, both machines, five drivings). Every FrameCount(n) call of a partition must complete exactly n frames under scripted stopwatch readings far beyond or jumping across the time limit. One driving runs the first frames in maximum-speed mode and compares the drained audio of every frame with the reference run's. In the breakpoint drivings a resumed FrameCount(1) call reports Completed exactly when one frame ended during it.",
         "Trusted: frame-counter hook for alignment; inputs applied between calls at equal frame indices.",
         "DESIGN.md section 5 (C16)",
         "emulator metamorphic driver",
